@@ -587,7 +587,8 @@ fn dec(s: &str) -> Option<u64> {
 fn parse_os(toks: &[&str]) -> Option<()> {
     let o = os();
     o.dirs.clear();
-    o.concrete = false;
+    // replay form (explicit answers) unless a policy / refusal token is present
+    o.concrete = !toks.iter().any(|t| t.starts_with('P') || t.starts_with('F'));
     o.policy = b'l';
     o.fail_k = None;
     for t in toks {
@@ -601,11 +602,9 @@ fn parse_os(toks: &[&str]) -> Option<()> {
             }
             "F" => o.fail_k = Some(dec(rest)? as usize),
             "M" => {
-                o.concrete = true;
                 o.dirs.push_back(Dir::M(if rest == "-" { None } else { Some(dec(rest)? as usize) }));
             }
             "R" | "U" => {
-                o.concrete = true;
                 let v = match rest {
                     "+" => true,
                     "-" => false,
